@@ -15,9 +15,11 @@
 //             moment if it is called          C  proxy.clear()
 //   D <bits> <examples> <gap> <seed> <op>...   the proxy around an evaluator
 //             that reads the CURRENT training set of a src_problem driven by
-//             the real vita::dss (oracle only, no model): E,k0,k1 evaluate
-//             through the proxy and directly; G,<generation> dss.shake(g);
-//             Q dss.close(0);  output e=<proxy>/<called>|<direct>, g=<0|1>
+//             the real vita::dss (oracle only, no model), one proxy on the
+//             training and one on the validation side: E,k0,k1 evaluate
+//             through the training proxy and directly, U,k0,k1 the same on
+//             the validation side; G,<generation> dss.shake(g); Q dss.close(0)
+//             output e=<proxy>/<called>|<direct>, u=<...>, g=<0|1>
 // keys and fitness components are hexadecimal 64-bit patterns.
 // output: one line, one token per F / S / E op, then the dump of the table:
 //   f=<w,w|->   s=<ok>|<dump>|<dump>   e=<w,w|->/<evaluator called 0|1>
@@ -215,10 +217,13 @@ static void dss_script(const std::vector<std::string> &w, std::ostream &out)
   src_problem prob(in);
   prob.env.dss = gap;
 
-  data_evaluator direct;
+  // one caching proxy on the training side and one on the validation side,
+  // each around an evaluator that reads the CURRENT content of its data set
+  data_evaluator direct, direct_v;
   direct.training = &prob.data(dataset_t::training);
+  direct_v.training = &prob.data(dataset_t::validation);
   evaluator_proxy<ind, data_evaluator> proxy_t(direct, bits);
-  evaluator_proxy<ind, data_evaluator> proxy_v(direct, bits);
+  evaluator_proxy<ind, data_evaluator> proxy_v(direct_v, bits);
   dss d(prob, proxy_t, proxy_v);
   d.init(0);
 
@@ -233,6 +238,14 @@ static void dss_script(const std::vector<std::string> &w, std::ostream &out)
       const fitness_t f(proxy_t(x));
       out << "e=" << show_fit(f) << '/' << (proxy_t.eva_.calls - before) << '|'
           << show_fit(direct(x)) << ' ';
+    }
+    else if (o == 'U')
+    {
+      ind x{hash_t(unhex(p[1]), unhex(p[2]))};
+      const unsigned before(proxy_v.eva_.calls);
+      const fitness_t f(proxy_v(x));
+      out << "u=" << show_fit(f) << '/' << (proxy_v.eva_.calls - before) << '|'
+          << show_fit(direct_v(x)) << ' ';
     }
     else if (o == 'G')
       out << "g=" << d.shake(static_cast<unsigned>(std::stoul(p[1]))) << ' ';
